@@ -93,6 +93,10 @@ struct Obs<'a> {
     maps: &'a KeyMaps,
     path: u64,
     recurrences: u64,
+    /// the root was constructed to have a chosen key value (theme_special_key): different positions
+    /// sharing a key are then the generator's doing (a 64-bit key cannot be injective, and the property
+    /// does not ask for it) and the collision map is not consulted for this history
+    constructed_key: bool,
 }
 
 fn check_key(g: &Game, pos: &Pos) -> Result<(), Fail> {
@@ -104,12 +108,19 @@ fn check_key(g: &Game, pos: &Pos) -> Result<(), Fail> {
 }
 
 impl<'a> Observer for Obs<'a> {
-    fn at_root(&mut self, g: &Game, pos: &Pos, _st: &mut Stats) -> Result<(), Fail> {
+    fn at_root(&mut self, g: &Game, pos: &Pos, st: &mut Stats) -> Result<(), Fail> {
+        if [0u64, !0u64, 1, 1 << 63].contains(&g.zobrist.0) {
+            self.constructed_key = true;
+            st.class("root_with_a_constructed_key_value");
+        }
         check_key(g, pos)
     }
     fn after_op(&mut self, g: &Game, pos: &Pos, op: &Op, _stack: &[Pos], st: &mut Stats) -> Result<(), Fail> {
         st.eval();
         check_key(g, pos)?;
+        if self.constructed_key {
+            return Ok(());
+        }
         self.path = hash_of(&(self.path, op.text()));
         match self.maps.observe(pos, g.zobrist.0, self.path) {
             Ok(rec) => {
@@ -262,7 +273,7 @@ pub fn run(run: &mut Run) -> &'static str {
     let maps_ref = &maps;
     let cases = run.tier.pick(300_000, 6_000_000);
     run.proptest_part("histories", RULE, hist_case(4..200), cases, |case: &HistCase, st: &mut Stats| {
-        let mut obs = Obs { maps: maps_ref, path: 0, recurrences: 0 };
+        let mut obs = Obs { maps: maps_ref, path: 0, recurrences: 0, constructed_key: false };
         let mut cfg = Config::search_like(60);
         // walk-heavy from few roots: identities recur by different move orders
         cfg.mix = if matches!(case, HistCase::Tape(t) if t.first().map_or(false, |x| x % 2 == 0)) { Mix::Roots } else { Mix::General };
@@ -282,7 +293,7 @@ pub fn run(run: &mut Run) -> &'static str {
     run.part_extra("distinct_identities_in_map", json!(maps.identities()));
     let cases = run.tier.pick(320, 6_000);
     run.proptest_part("long_histories", RULE, hist_case(400..1500), cases, |case: &HistCase, st: &mut Stats| {
-        let mut obs = Obs { maps: maps_ref, path: 0, recurrences: 0 };
+        let mut obs = Obs { maps: maps_ref, path: 0, recurrences: 0, constructed_key: false };
         if let Some((feat, root, ops)) = interpret(case, &Config::long(), st, &mut obs)? {
             if feat.max_depth >= 1025 {
                 st.class("max_nesting_depth_reached_1025_or_more");
